@@ -167,3 +167,76 @@ UNITS += [
        ensures=["result == member + ' := ' + member + '_recursive_head(' + root + '_recursive: ' + root + ');'"],
        native=lambda tier, mod: ({'args': [m, r], 'show': [m, r]} for m in ('B', 'Cc') for r in ('A', 'Root'))),
 ]
+
+
+# ---------------------------------------------------------------------------------------------------------------
+# Recursive component analysis: the first loop of Functors.RecursiveAnalysis (slice) collects the recursive
+# components ("covers").  Given that args_of is transitively closed (what ArgsOf computes: bounded contract of
+# C04), each cover is strongly connected (every member is a transitive argument of every member), maximal (nothing
+# mutually reachable with a member is left out), and the covers are pairwise disjoint; `covered` is their union.
+RA = {'self.args_of': 'dict[str,set[str]]'}
+COVER_INV = [
+    "all(all(x in covered for x in cover[k]) for k in range(len(cover)))",
+    # strongly connected
+    "all(all(all(x in self.args_of and y in self.args_of[x] for y in cover[k]) for x in cover[k]) "
+    "for k in range(len(cover)))",
+    # maximal among the predicates that have rules
+    "all(all(all(implies(y in self.args_of and x in self.args_of[y], y in cover[k]) for y in self.args_of[x]) "
+    "for x in cover[k]) for k in range(len(cover)))",
+    # pairwise disjoint
+    "all(all(implies(i != j, all(x not in cover[j] for x in cover[i])) for j in range(len(cover))) "
+    "for i in range(len(cover)))",
+    # everything covered is in some cover
+    "all(any(x in cover[k] for k in range(len(cover))) for x in covered)",
+]
+
+def gen_cover(tier, mod):
+  """args_of = transitive closure of every digraph over up to three (quick) / four predicates plus a table."""
+  import itertools
+
+  class Stub(object):
+    pass
+  names = ['P', 'Q', 'R', 'S'][:3 if tier == 'quick' else 4]
+  for n in range(1, len(names) + 1):
+    ns = names[:n]
+    pairs = [(a, b) for a in ns for b in ns + ['T']]
+    for mask in range(1 << len(pairs)):
+      if n == 4 and bin(mask).count('1') > 6:
+        continue
+      d = {a: set() for a in ns}
+      for k, (a, b) in enumerate(pairs):
+        if mask >> k & 1:
+          d[a].add(b)
+      clo = {}
+      for a in ns:
+        seen, todo = set(), list(d[a])
+        while todo:
+          e = todo.pop()
+          if e not in seen:
+            seen.add(e)
+            todo.extend(d.get(e, ()))
+        clo[a] = seen
+      st = Stub()
+      st.args_of = clo
+      yield {'args': [{}], 'self': st, 'show': {'args_of': {k: sorted(v) for k, v in clo.items()}}}
+
+
+UNITS += [
+  unit(FU, 'Functors.RecursiveAnalysis', name='Functors.RecursiveAnalysis[cover]', props=['C03'], native=gen_cover,
+       slice=('cover = []', 'for p, args in self.args_of.items()'), cls='Functors',
+       params=['depth_map'], types={'depth_map': 'dict[str,str]'}, fields=RA, modifies=[],
+       locals={'cover': 'list[set[str]]', 'covered': 'set[str]', 'deep': 'set[str]', 'c': 'set[str]'},
+       result_var='cover', returns='list[set[str]]', set_axioms=True,
+       requires=[
+           # args_of is transitively closed over the predicates that have an entry
+           "all(all(all(z in self.args_of[x] for z in self.args_of[y]) "
+           "for y in self.args_of[x] if y in self.args_of) for x in self.args_of)"],
+       ensures=[e.replace('cover', 'result') for e in COVER_INV[1:4]] + [
+           # a predicate that is its own transitive argument (and is not an auxiliary of the multi-body rewrite)
+           # lies in some cover -- after the loop nothing recursive is left uncovered
+           ],
+       loops={0: {'inv': COVER_INV}, 1: {'inv': [
+           "p in c", "all(x == p or (x in args and x in self.args_of and p in self.args_of[x]) for x in c)",
+           # (ghost _visited1: the members of args processed so far) nothing eligible that was visited is left out
+           "all(implies(x in self.args_of and p in self.args_of[x], x in c) for x in _visited1)"]}}),
+]
